@@ -809,46 +809,69 @@ func c04Mem(p *Prog, res *Result) {
 		res.undecided("MEM", c04Sched+".doGetCPUPlans", "", "not found")
 	} else {
 		avail, memReq := fn.paramObj(2), fn.paramObj(6)
-		var capObj types.Object
+		// the cut may live in a helper that is handed the plans, the available memory and the memory request
+		T := fn
 		fn.inspectBody(func(n ast.Node) bool {
+			c, ok := n.(*ast.CallExpr)
+			if !ok || T != fn {
+				return true
+			}
+			H := p.ByObj[fn.Callee(c)]
+			if H == nil || H.Body == nil || H.Pkg != fn.Pkg || H == fn {
+				return true
+			}
+			var ha, hm types.Object
+			for i, a := range c.Args {
+				switch fn.objOf(a) {
+				case avail:
+					ha = H.paramObj(i)
+				case memReq:
+					hm = H.paramObj(i)
+				}
+			}
+			if ha != nil && hm != nil {
+				T, avail, memReq = H, ha, hm
+			}
+			return true
+		})
+		var capObj types.Object
+		T.inspectBody(func(n ast.Node) bool {
 			as, ok := n.(*ast.AssignStmt)
 			if !ok || len(as.Lhs) != 1 || len(as.Rhs) != 1 {
 				return true
 			}
 			found := false
 			ast.Inspect(as.Rhs[0], func(x ast.Node) bool {
-				if b, ok := x.(*ast.BinaryExpr); ok && b.Op == token.QUO && fn.objOf(b.X) == avail && fn.objOf(b.Y) == memReq {
+				if b, ok := x.(*ast.BinaryExpr); ok && b.Op == token.QUO && T.objOf(b.X) == avail && T.objOf(b.Y) == memReq {
 					found = true
 				}
 				return true
 			})
 			if found && as.Tok == token.DEFINE {
-				capObj = fn.objOf(as.Lhs[0])
+				capObj = T.objOf(as.Lhs[0])
 			}
 			return true
 		})
+		// plans[:cap], reached exactly when cap < len(plans) (written either way round, as a branch or after an early return)
 		okCut := false
-		var ret *ast.ReturnStmt
-		fn.inspectBody(func(n ast.Node) bool {
-			if rt, ok := n.(*ast.ReturnStmt); ok {
-				ret = rt
+		T.inspectBody(func(n ast.Node) bool {
+			se, ok := n.(*ast.SliceExpr)
+			if !ok || capObj == nil || se.Low != nil || T.objOf(se.High) != capObj || T.objOf(se.X) == nil {
+				return true
 			}
-			if is, ok := n.(*ast.IfStmt); ok && capObj != nil {
-				b, ok := unparen(is.Cond).(*ast.BinaryExpr)
-				if !ok || !(b.Op == token.LSS && fn.objOf(b.X) == capObj && strings.HasPrefix(exprStr(b.Y), "len(")) {
-					return true
-				}
-				for _, s := range is.Body.List {
-					if as, ok := s.(*ast.AssignStmt); ok && len(as.Rhs) == 1 {
-						if se, ok := unparen(as.Rhs[0]).(*ast.SliceExpr); ok && se.Low == nil && fn.objOf(se.High) == capObj && fn.objOf(se.X) == fn.objOf(as.Lhs[0]) {
-							okCut = true
-						}
+			conds, ok := pathConds(T.Body, se)
+			if !ok {
+				return true
+			}
+			for _, c := range conds {
+				if kind, x, y, ok := normCmp(c.Expr, c.Pos); ok && kind == "lt" && T.objOf(x) == capObj {
+					if lc, ok := y.(*ast.CallExpr); ok && isBuiltinCall(T, lc, "len") && len(lc.Args) == 1 && T.objOf(lc.Args[0]) == T.objOf(se.X) {
+						okCut = true
 					}
 				}
 			}
 			return true
 		})
-		_ = ret
 		res.check(capObj != nil && okCut, "MEM", c04Sched+".doGetCPUPlans / the plans of one planning call are cut to what the memory admits", p.pos(fn.Decl), "memoryCapacity := availableMemory / memoryRequest; if memoryCapacity < len(plans) { plans = plans[:memoryCapacity] }", "the plan list is not cut to availableMemory / memoryRequest: more instances are planned than the (node's or NUMA node's) free memory holds")
 	}
 	const pk = "resource/plugins/cpumem"
@@ -1010,16 +1033,16 @@ func c04Rec(p *Prog, res *Result) {
 	}
 	var plan types.Object
 	var wl *ast.CompositeLit
+	var site litSite
 	fn.inspectBody(func(n ast.Node) bool {
 		if rs, ok := n.(*ast.RangeStmt); ok && rs.Value != nil {
-			ast.Inspect(rs.Body, func(x ast.Node) bool {
-				if cl, ok := x.(*ast.CompositeLit); ok {
-					if t := fn.typeOf(cl); t != nil && strings.HasSuffix(t.String(), "types.WorkloadResource") {
-						wl, plan = cl, fn.objOf(rs.Value)
-					}
-				}
-				return true
-			})
+			// the literal in the plan loop, or in a constructor helper called there
+			for _, ls := range p.litsVia(fn, rs.Body, func(owner *FuncNode, cl *ast.CompositeLit) bool {
+				t := owner.typeOf(cl)
+				return t != nil && strings.HasSuffix(t.String(), "types.WorkloadResource")
+			}) {
+				wl, plan, site = ls.lit, fn.objOf(rs.Value), ls
+			}
 		}
 		return true
 	})
@@ -1037,12 +1060,12 @@ func c04Rec(p *Prog, res *Result) {
 	}
 	fromPlan := func(e ast.Expr, f string) bool {
 		sel, ok := unparen(e).(*ast.SelectorExpr)
-		return ok && sel.Sel.Name == f && fn.objOf(sel.X) == plan
+		return ok && sel.Sel.Name == f && site.objIn(fn, sel.X) == plan
 	}
 	res.check(fromPlan(get("CPUMap"), "CPUMap") && fromPlan(get("NUMANode"), "NUMANode") && strings.HasSuffix(exprStr(get("MemoryRequest")), ".MemRequest") && strings.HasSuffix(exprStr(get("CPURequest")), ".CPURequest"), "REC", fn.Name+" / the recorded workload resources are the plan's cores and node and the request's amounts", p.pos(wl), "CPUMap: plan.CPUMap, NUMANode: plan.NUMANode, CPURequest/MemoryRequest from the request", "the recorded workload resource does not carry the plan's core map / NUMA node or the request's amounts: the usage booked differs from what was planned")
 	// NUMAMemory = {NUMANode: MemoryRequest} when a node is set
 	okNM := false
-	fn.inspectBody(func(n ast.Node) bool {
+	site.owner.inspectBody(func(n ast.Node) bool {
 		is, ok := n.(*ast.IfStmt)
 		if !ok || !strings.Contains(exprStr(is.Cond), "NUMANode") {
 			return true
